@@ -159,6 +159,39 @@ def correspondence(ctx, model_available=True):
     }
 
 
+def search(ctx, breaks):
+    """Oracle-only search on the real machine: many single-instruction cases (focused on the
+    operation classes a broken obligation names) and whole programs."""
+    import re
+    found = []
+    table = dict(ec.real_ops())
+    focus = []
+    for b in breaks:
+        for m in re.findall(r"\b([A-Z][A-Z0-9_]{1,12})\b", repr(b)):
+            if m in table and m not in focus:
+                focus.append(m)
+    plan = [(n, table[n]) for n in focus for _ in range(3000 // max(1, len(focus)))] if focus else []
+    plan += [(n, P) for n, P in ec.real_ops() for _ in range(150)]
+    for name, P in plan:
+        c = ec.make_case(ctx.rng, name, P)
+        bad = wf_snapshot(ec.run_impl(c))
+        if bad:
+            found.append({"what": "%s%s leaves an ill-formed machine: %s" % (c["op"], tuple(c["args"]), bad),
+                          "case": ec.case_json(c)})
+            if len(found) >= 3:
+                return found
+    for k in range(600):
+        prog = rc.gen_program(ctx.rng, wild=(k % 2 == 0))
+        st = ec.rand_state(ctx.rng)
+        r = rc.run_impl(prog, st)
+        bad = run_verdict(prog, r)
+        if bad:
+            found.append({"what": "running a program: %s" % bad, "case": rc.case_json({"prog": prog, "st": st})})
+            if len(found) >= 3:
+                break
+    return found
+
+
 def replay(ctx, path):
     import json
     print(open(path).read()[:4000])
